@@ -35,7 +35,7 @@ use grin_p2p::ChainAdapter as P2pChainAdapter;
 use grin_pool::types::PoolConfig;
 use grin_pool::{DandelionConfig, TransactionPool};
 use grin_servers::common::adapters::{ChainToPoolAndNetAdapter, DandelionAdapter, NetToChainAdapter, PoolToChainAdapter, PoolToNetAdapter};
-use grin_servers::verif_export::{get_block, verif_process_expired_entries, verif_process_fluff_phase};
+use grin_servers::verif_export::{get_block, verif_process_expired_entries, verif_process_fluff_phase, VerifStratum};
 use grin_util::RwLock;
 use gvharness::chainkit::*;
 use gvharness::*;
@@ -141,6 +141,9 @@ enum Op {
 	OwnerStatus,
 	OwnerValidate,
 	OwnerCompact,
+	/// one stratum episode: candidate from the real get_block, installed; stale / wrong-job / garbage shares; a real
+	/// solution found by the pow solver, submitted (a full solution goes through chain.process_block(MINE))
+	Stratum,
 }
 
 impl Op {
@@ -173,6 +176,7 @@ impl Op {
 			Op::OwnerStatus => vec!["api::StatusHandler::get_status"],
 			Op::OwnerValidate => vec!["api::ChainValidationHandler::validate_chain"],
 			Op::OwnerCompact => vec!["api::ChainCompactHandler::compact_chain"],
+			Op::Stratum => vec!["mine_block::get_block", "Stratum::handle_rpc_requests", "Stratum::handle_rpc_requests", "Stratum::handle_rpc_requests"],
 		}
 	}
 }
@@ -325,6 +329,10 @@ struct Shared {
 	fails: Mutex<Vec<String>>,
 	stats: Mutex<BTreeMap<String, u64>>,
 	done: AtomicBool,
+	stratum: VerifStratum,
+	worker: usize,
+	/// blocks mined through the stratum server that the chain accepted (they add work beyond the scenario)
+	mined: Mutex<Vec<Block>>,
 }
 
 fn note(sh: &Shared, k: String) {
@@ -339,6 +347,101 @@ fn short<T, E: std::fmt::Debug>(r: &Result<T, E>) -> String {
 			let s: String = s.chars().take_while(|c| c.is_alphanumeric() || *c == '_').collect();
 			format!("err:{}", if s.is_empty() { "other".to_string() } else { s })
 		}
+	}
+}
+
+/// bounded version of core::pow::pow_size: a cycle on the header meeting `diff`, at most `tries` nonces
+fn solve(bh: &mut grin_core::core::BlockHeader, diff: u64, tries: u64) -> bool {
+	use grin_core::global;
+	use grin_core::pow::PoWContext;
+	for _ in 0..tries {
+		if let Ok(mut ctx) = global::create_pow_context::<u32>(bh.height, global::min_edge_bits(), global::proofsize(), 10) {
+			if ctx.set_header_nonce(bh.pre_pow(), None, true).is_ok() {
+				if let Ok(proofs) = ctx.find_cycles() {
+					bh.pow.proof = proofs[0].clone();
+					if bh.pow.to_difficulty(bh.height).to_num() >= diff {
+						return true;
+					}
+				}
+			}
+		}
+		bh.pow.nonce = bh.pow.nonce.wrapping_add(1);
+	}
+	false
+}
+
+fn submit_line(id: u32, height: u64, job: u64, nonce: u64, edge_bits: u32, pow: &[u64]) -> String {
+	let p: Vec<String> = pow.iter().map(|x| x.to_string()).collect();
+	format!(
+		"{{\"id\":\"{}\",\"jsonrpc\":\"2.0\",\"method\":\"submit\",\"params\":{{\"height\":{},\"job_id\":{},\"nonce\":{},\"edge_bits\":{},\"pow\":[{}]}}}}",
+		id, height, job, nonce, edge_bits, p.join(",")
+	)
+}
+
+fn resp_class(r: &Result<String, String>) -> String {
+	match r {
+		Err(_) => "unparsable".into(),
+		Ok(s) => {
+			if let Some(i) = s.find("\"code\":") {
+				let c: String = s[i + 7..].chars().take_while(|c| c.is_ascii_digit() || *c == '-').collect();
+				format!("error{}", c)
+			} else if s.contains("blockfound") {
+				"blockfound".into()
+			} else {
+				"ok".into()
+			}
+		}
+	}
+}
+
+fn stratum_episode(sh: &Shared) {
+	let n = &sh.node;
+	let (b, _fees) = get_block(&n.chain, &n.pool, None, None);
+	let prev = match n.chain.get_block_header(&b.header.prev_hash) {
+		Ok(p) => p,
+		Err(_) => return,
+	};
+	let diff = (b.header.total_difficulty() - prev.total_difficulty()).to_num();
+	sh.stratum.install_candidate(b.clone(), true, diff);
+	let h = b.header.height;
+	let eb = grin_core::global::min_edge_bits() as u32;
+	for (what, line) in [
+		("getjobtemplate", "{\"id\":\"1\",\"jsonrpc\":\"2.0\",\"method\":\"getjobtemplate\",\"params\":null}".to_string()),
+		("status", "{\"id\":\"2\",\"jsonrpc\":\"2.0\",\"method\":\"status\",\"params\":null}".to_string()),
+		("keepalive", "{\"id\":\"3\",\"jsonrpc\":\"2.0\",\"method\":\"keepalive\",\"params\":null}".to_string()),
+		("stale_height", submit_line(4, h + 1, 0, 1, eb, &[1, 2, 3, 4, 5, 6, 7, 8])),
+		("wrong_job", submit_line(5, h, 7, 1, eb, &[1, 2, 3, 4, 5, 6, 7, 8])),
+		("garbage_pow", submit_line(6, h, 0, 1, eb, &[1, 2, 3, 4, 5, 6, 7, 8])),
+		("too_small_graph", submit_line(7, h, 0, 1, 5, &[1, 2, 3, 4, 5, 6, 7, 8])),
+	] {
+		let r = sh.stratum.request(&line, sh.worker);
+		let c = resp_class(&r);
+		// a refused share must be answered with an error, never accepted
+		if what.contains('_') && !c.starts_with("error") {
+			sh.fails.lock().unwrap().push(format!("stratum: the {} share `{}` was answered {:?}", what, line, r));
+		}
+		note(sh, format!("stratum_{}:{}", what, c));
+	}
+	// a real solution (bounded search)
+	let mut hdr = b.header.clone();
+	if solve(&mut hdr, diff, 300) {
+		let line = submit_line(8, h, 0, hdr.pow.nonce, hdr.pow.proof.edge_bits as u32, &hdr.pow.proof.nonces);
+		let r = sh.stratum.request(&line, sh.worker);
+		let c = resp_class(&r);
+		note(sh, format!("stratum_solution:{}", c));
+		let mut mined = b.clone();
+		mined.header = hdr;
+		let stored = n.chain.block_exists(mined.hash()).unwrap_or(false);
+		if c == "blockfound" || c == "ok" {
+			if stored {
+				sh.mined.lock().unwrap().push(mined);
+				note(sh, "stratum_block_stored".into());
+			} else if c == "blockfound" {
+				sh.fails.lock().unwrap().push(format!("stratum answered blockfound for height {} but the block is not stored", h));
+			}
+		}
+	} else {
+		note(sh, "stratum_solution:none_in_300_nonces".into());
 	}
 }
 
@@ -461,6 +564,9 @@ fn run_op(sh: &Shared, tid: usize, op: &Op, pi: &PeerInfo) {
 			let mut start = 1u64;
 			let mut seen = std::collections::BTreeSet::new();
 			let mut pages = 0;
+			// a duplicate across pages is legitimate when the head moved while the sequence ran (see conctorn.rs)
+			let head_before = n.chain.head().map(|t| t.last_block_h).ok();
+			let mut dups: Vec<(String, u64)> = vec![];
 			loop {
 				let page = match n.foreign.get_unspent_outputs(start, None, 5, Some(false)) {
 					Ok(p) => p,
@@ -473,7 +579,7 @@ fn run_op(sh: &Shared, tid: usize, op: &Op, pi: &PeerInfo) {
 						sh.fails.lock().unwrap().push(format!("api get_unspent_outputs(start {}) lists commitment {} twice in one call", start, hex(&o.commit.0[..6])));
 					}
 					if !o.spent && !seen.insert((o.commit.0.to_vec(), o.mmr_index)) {
-						sh.fails.lock().unwrap().push(format!("api page sequence lists ({}, position {}) twice", hex(&o.commit.0[..6]), o.mmr_index));
+						dups.push((hex(&o.commit.0[..6]), o.mmr_index));
 					}
 					if !o.spent && o.mmr_index == 0 {
 						sh.fails.lock().unwrap().push(format!("api get_unspent_outputs lists {} unspent without a position", hex(&o.commit.0[..6])));
@@ -483,6 +589,14 @@ fn run_op(sh: &Shared, tid: usize, op: &Op, pi: &PeerInfo) {
 					break;
 				}
 				start = page.last_retrieved_index + 1;
+			}
+			let head_after = n.chain.head().map(|t| t.last_block_h).ok();
+			if !dups.is_empty() {
+				if head_before == head_after {
+					sh.fails.lock().unwrap().push(format!("api page sequence lists {:?} twice although the head did not move while it ran", dups));
+				} else {
+					note(sh, "api_page_sequence_duplicates_across_a_reorg".into());
+				}
 			}
 			note(sh, format!("api_page_sequence:pages={}", pages.min(9)));
 		}
@@ -515,6 +629,7 @@ fn run_op(sh: &Shared, tid: usize, op: &Op, pi: &PeerInfo) {
 			let r = n.owner.compact_chain();
 			note(sh, format!("owner_compact_chain:{}", short(&r)));
 		}
+		Op::Stratum => stratum_episode(sh),
 		Op::ValidateFast => {
 			let r = n.chain.validate(true);
 			if r.is_err() {
@@ -531,8 +646,59 @@ fn run_op(sh: &Shared, tid: usize, op: &Op, pi: &PeerInfo) {
 	sh.steps.fetch_add(1, Ordering::SeqCst);
 }
 
+/// NOT a registered run (`concnode stratumprobe`): shares with edge_bits >= 64 through the stratum request handler
+fn stratum_probe(work: &str) {
+	setup_globals();
+	let mut rng = Rng::new(1);
+	let (kit, sc) = build_scenario(work, 0, &mut rng).unwrap();
+	let node = mk_node(&format!("{}/probe_subject", work), &kit.genesis, 10);
+	for b in &sc.preload {
+		let _ = node.chain.process_block(sc.blocks[*b].clone(), Options::SKIP_POW);
+	}
+	let mut st = VerifStratum::new(node.chain.clone(), node.sync.clone(), 1);
+	let w = st.add_worker();
+	let (b, _) = get_block(&node.chain, &node.pool, None, None);
+	let prev = node.chain.get_block_header(&b.header.prev_hash).unwrap();
+	let diff = (b.header.total_difficulty() - prev.total_difficulty()).to_num();
+	st.install_candidate(b.clone(), true, diff);
+	let h = b.header.height;
+	let mut hdr = b.header.clone();
+	let solved = solve(&mut hdr, diff, 2000);
+	println!("# candidate height {} network difficulty {} ; real solution at edge_bits {} found: {} nonce {} pow {:?}", h, diff, hdr.pow.proof.edge_bits, solved, hdr.pow.nonce, hdr.pow.proof.nonces);
+	let try_line = |what: &str, line: String| {
+		let r = std::panic::catch_unwind(AssertUnwindSafe(|| st.request(&line, w)));
+		match r {
+			Ok(resp) => println!("PROBE {} | request {} | answered {:?}", what, line, resp),
+			Err(e) => {
+				let msg = e.downcast_ref::<&str>().map(|s| s.to_string()).or_else(|| e.downcast_ref::<String>().cloned()).unwrap_or_else(|| "panic".into());
+				println!("PROBE {} | request {} | PANICKED inside handle_rpc_requests: {}", what, line, msg);
+			}
+		}
+		// is the handler still usable afterwards (the guard on current_state released by the unwind)?
+		let r2 = std::panic::catch_unwind(AssertUnwindSafe(|| st.request("{\"id\":\"9\",\"jsonrpc\":\"2.0\",\"method\":\"status\",\"params\":null}", w)));
+		println!("      afterwards status request: {}", match r2 { Ok(Ok(_)) => "answered".to_string(), Ok(Err(e)) => e, Err(_) => "PANICKED".to_string() });
+	};
+	for eb in [63u32, 64, 65, 74, 95, 96, 127, 128, 202, 255, 256 + 10] {
+		try_line(&format!("garbage-pow edge_bits={}", eb), submit_line(10, h, 0, 1, eb, &[1, 2, 3, 4, 5, 6, 7, 8]));
+	}
+	if solved {
+		for add in [64u32, 128, 192] {
+			let eb = hdr.pow.proof.edge_bits as u32 + add;
+			try_line(&format!("REAL solution of edge_bits {} relabelled as {}", hdr.pow.proof.edge_bits, eb), submit_line(11, h, 0, hdr.pow.nonce, eb, &hdr.pow.proof.nonces));
+			let hh = std::panic::catch_unwind(AssertUnwindSafe(|| { let mut x = hdr.clone(); x.pow.proof.edge_bits = eb as u8; x.hash() }));
+			println!("      hash of the relabelled header computable: {} ; head height now {} (candidate height {})", hh.is_ok(), node.chain.head().map(|t| t.height).unwrap_or(0), h);
+		}
+	}
+}
+
 fn main() {
 	if std::env::var("VERIF_LOUD").is_err() { quiet_panics(); }
+	if std::env::args().nth(1).as_deref() == Some("stratumprobe") {
+		let work = std::env::var("VERIF_WORK").unwrap_or_else(|_| "/verif/work/concnode".to_string());
+		let _ = std::fs::create_dir_all(&work);
+		stratum_probe(&work);
+		return;
+	}
 	let seed = seed_from_env();
 	let thorough = tier_thorough();
 	let work = std::env::var("VERIF_WORK").unwrap_or_else(|_| "/verif/work/concnode".to_string());
@@ -569,7 +735,7 @@ fn main() {
 			}
 			// per-thread programs
 			let ntx = sc.txs.len();
-			let mut progs: Vec<Vec<Op>> = vec![vec![]; 8];
+			let mut progs: Vec<Vec<Op>> = vec![vec![]; 9];
 			for b in &sc.trunk {
 				progs[0].push(Op::Block(*b));
 				if xr.chance(1, 3) { progs[0].push(Op::Block(*b)); }
@@ -620,8 +786,11 @@ fn main() {
 			for _ in 0..(5 + xr.below(3)) {
 				progs[7].push(match xr.below(4) { 0 => Op::OwnerValidate, 1 => Op::OwnerCompact, _ => Op::OwnerStatus });
 			}
+			for _ in 0..(2 + xr.below(2)) { progs[8].push(Op::Stratum); }
 			let sim_progs: Vec<String> = progs.iter().map(|p| p.iter().flat_map(|o| o.entries()).collect::<Vec<_>>().join("+")).collect();
 			let total_ops: u64 = progs.iter().map(|p| p.len() as u64).sum();
+			let mut stratum = VerifStratum::new(node.chain.clone(), node.sync.clone(), 1);
+			let worker = stratum.add_worker();
 			let sh = Arc::new(Shared {
 				node,
 				sc,
@@ -630,6 +799,9 @@ fn main() {
 				fails: Mutex::new(vec![]),
 				stats: Mutex::new(BTreeMap::new()),
 				done: AtomicBool::new(false),
+				stratum,
+				worker,
+				mined: Mutex::new(vec![]),
 			});
 			let gate = Arc::new(AtomicBool::new(false));
 			let mut handles = vec![];
@@ -676,7 +848,7 @@ fn main() {
 					"#ORACLE-FAIL C17 deadlock node round={} exec={} seed={}: no call completed for {} s; {} of {} calls done; calls in flight per thread: {:?}",
 					round, ex, seed, stall, last, total_ops, cur
 				));
-				out.line(&format!("conc node round={} exec={} threads=8 seed={}", round, ex, seed), "stalled");
+				out.line(&format!("conc node round={} exec={} threads=9 seed={}", round, ex, seed), "stalled");
 				out.flush();
 				std::process::exit(0);
 			}
@@ -689,10 +861,29 @@ fn main() {
 			let n = &sh.node;
 			let sc = &sh.sc;
 			// ---- final state
-			let best_hash = sc.blocks[sc.best].hash();
+			// blocks mined through the stratum server add work beyond the scenario: the expected head is the max-work
+			// block among the scenario's and the accepted mined ones (skipped when that maximum is not unique)
+			let mined = sh.mined.lock().unwrap().clone();
+			let mut best_hash = sc.blocks[sc.best].hash();
+			let mut best_work = sc.work[sc.best];
+			let mut unique = true;
+			for m in &mined {
+				let w = m.header.total_difficulty().to_num();
+				if w > best_work {
+					best_work = w;
+					best_hash = m.hash();
+					unique = true;
+				} else if w == best_work {
+					unique = false;
+				}
+			}
+			note(&sh, format!("mined_blocks_stored:{}", mined.len().min(9)));
+			if !unique {
+				note(&sh, "final_max_work_tie_head_check_skipped".into());
+			}
 			match (n.chain.head(), n.chain.header_head()) {
 				(Ok(h), Ok(hh)) => {
-					if h.last_block_h != best_hash {
+					if unique && h.last_block_h != best_hash {
 						fails.push(format!("final head {} at height {} is not the max-work block {} (work {})", h.last_block_h, h.height, best_hash, sc.work[sc.best]));
 					}
 					if hh.last_block_h != h.last_block_h {
@@ -727,17 +918,20 @@ fn main() {
 			for b in sc.preload.iter().chain(sc.trunk.iter()).chain(sc.fork.iter()) {
 				let _ = twin.deliver_block(&sc.blocks[*b]);
 			}
+			for m in &mined {
+				let _ = twin.c().process_block(m.clone(), Options::MINE);
+			}
 			if let (Ok(a), Ok(b)) = (twin.c().head(), n.chain.head()) {
-				if a.last_block_h != b.last_block_h {
+				if unique && a.last_block_h != b.last_block_h {
 					fails.push(format!("head {} differs from the sequential twin's {}", b.last_block_h, a.last_block_h));
 				}
 			}
 			for f in &fails {
-				out.raw(&format!("#ORACLE-FAIL C17 node round={} exec={} seed={} threads=8: {}", round, ex, seed, f));
+				out.raw(&format!("#ORACLE-FAIL C17 node round={} exec={} seed={} threads=9: {}", round, ex, seed, f));
 			}
 			out.line(&format!("conc nodesim seed={} progs={}", xr.below(1 << 30), sim_progs.join(",")), "finished");
 			out.line(
-				&format!("conc node round={} exec={} threads=8 blocks={} fork={} txs={} seed={}", round, ex, sc.blocks.len() - 1, sc.fork.len(), sc.txs.len(), seed),
+				&format!("conc node round={} exec={} threads=9 blocks={} fork={} txs={} seed={}", round, ex, sc.blocks.len() - 1, sc.fork.len(), sc.txs.len(), seed),
 				if fails.is_empty() { "ok" } else { "failed" },
 			);
 			for (k, v) in sh.stats.lock().unwrap().iter().filter(|(k, _)| !k.starts_with("zz_")) {
